@@ -11,7 +11,7 @@ sig = c.get("signature", "")
 os.makedirs(f"/verif/findings/{fid}", exist_ok=True)
 json.dump(c, open(f"/verif/findings/{fid}/case.json", "w"), ensure_ascii=False, indent=1)
 def replay(repo):
-    r = subprocess.run(["/verif/run.sh", prop, "--replay", f"/verif/findings/{fid}/case.json"], env=dict(os.environ, VERIF_REPO=repo), capture_output=True, text=True)
+    r = subprocess.run(["/verif/run.sh", prop, "--replay", f"/verif/findings/{fid}/case.json"], env=dict(os.environ, VERIF_REPO=repo), capture_output=True, text=True, errors="replace")
     return r.returncode, (r.stdout + r.stderr).strip().split("\n")[0][:200]
 print("HEAD:", replay("/repo"))
 if status == "fixed":
